@@ -148,6 +148,13 @@ func (s *Schema) Rels() []Rel {
 	sort.Slice(rels, func(i, j int) bool {
 		name1 := rels[i].FromType + rels[i].FromName
 		name2 := rels[j].FromType + rels[j].FromName
+
+		// Different relationships can have the same concatenation; break
+		// the tie so that the order does not depend on map iteration.
+		if name1 == name2 {
+			return rels[i].FromType < rels[j].FromType
+		}
+
 		return name1 < name2
 	})
 
